@@ -403,3 +403,54 @@ func c10x5(c *Ctx) {
 	_ = sort.Strings
 	_ = types.Typ
 }
+
+// X7: a write command that reads old content through an accessor with a `checkExpired` switch must switch it on:
+// read with the switch off, the field of a hash that expired at or before the log timestamp is taken for live content
+// and carried into the new generation (HINCRBY continues counting from the dead value). The accessors are found by
+// their declaration (a bool parameter named checkExpired in package rockredis); a caller is a write command when it
+// puts into, or commits, a write batch.
+func c10X7(c *Ctx) {
+	r := c.R
+	r.Clause("C10-X7", "write commands read old content with the expiry check switched on")
+	type acc struct {
+		name string
+		idx  int
+	}
+	var accs []acc
+	for _, fn := range c.P.Funcs() {
+		if load.ShortPkg(fn.Pkg.PkgPath) != "rockredis" || fn.Decl.Type.Params == nil {
+			continue
+		}
+		i := 0
+		for _, f := range fn.Decl.Type.Params.List {
+			for _, n := range f.Names {
+				if n.Name == "checkExpired" {
+					accs = append(accs, acc{fn.Name, i})
+				}
+				i++
+			}
+			if len(f.Names) == 0 {
+				i++
+			}
+		}
+	}
+	r.Min("C10-X7", len(accs), 1, "accessors with a checkExpired switch")
+	n := 0
+	for _, a := range accs {
+		for _, sw := range c.W.AllSites(an.Call(a.name), "", []string{"rockredis"}) {
+			u := sw.U
+			if len(u.Match(an.Call("engine.WriteBatch.Put", "rockredis.(*RockDB).MaybeCommitBatch", "rockredis.(*RockDB).CommitBatchWrite", "engine.KVEngine.Write"))) == 0 {
+				continue // a reader
+			}
+			n++
+			v := u.ArgTerm(sw.S, a.idx)
+			r.Check("C10-X7", u.Name+": reads through "+a.name+" with the expiry check on", u.Pos(sw.S.Pos), v == "true", "checkExpired = "+v)
+		}
+	}
+	r.Min("C10-X7", n, 1, "write commands reading through such an accessor")
+}
+
+func init() {
+	old := registry["C10"].Run
+	registry["C10"].Run = func(c *Ctx) { old(c); c10X7(c) }
+}
